@@ -36,3 +36,77 @@ prop("C18", "exploration",
      "distinct by hash of (type, rule, vector)",
      [dict(name="c18_sort", sources=["c18_sort.cpp"], flavour="asan")],
      assumptions=TRUST, exhaustive=True)
+
+
+# ------------------------------------------------------------------------------------------ C19
+def c19_purity(env):
+    """Purity monitor: digests equal across processes / heap histories; no libc RNG, clock or entropy call between the markers."""
+    import subprocess, re
+    job = dict(name="c19_purity", sources=["c19_purity.cpp"], flavour="plain")
+    exe = env["build"](job)
+    cov, viols = {}, []
+
+    def run(args, pre=None):
+        r = subprocess.run((pre or []) + [exe] + args, stdout=subprocess.PIPE, stderr=subprocess.PIPE, text=True, timeout=600)
+        return r
+
+    def digest(r):
+        m = re.search(r"DIGEST (\d+)", r.stdout)
+        return m.group(1) if m else None
+
+    base = digest(run([]))
+    digs = [base]
+    for i in range(3):
+        digs.append(digest(run(["perturb"])))
+    r = run([], pre=["setarch", "x86_64", "-R"])
+    if r.returncode == 0:
+        digs.append(digest(r))
+    cov["process_digests"] = digs
+    if base is None or any(d != base for d in digs):
+        viols.append(dict(key="purity/process-digest", details=dict(digests=digs)))
+    canary_d = digest(run(["canary"]))
+    cov["canary_digest_differs"] = (canary_d != base)
+
+    def between(text):
+        a, b = text.find("VF_MARK_BEGIN"), text.rfind("VF_MARK_END")
+        return text[a:b] if a >= 0 and b > a else None
+
+    LT = "rand+srand+random+srandom+time+clock+clock_gettime+gettimeofday+getrandom+getentropy+rand_r+drand48+lrand48+mrand48+getpid+write"
+    for tool, pre in (("ltrace", ["ltrace", "-e", LT]),
+                      ("strace", ["strace", "-f", "-e", "trace=getrandom,clock_gettime,gettimeofday,time,getpid,write,openat,open"])):
+        try:
+            can = run(["canary"], pre=pre)
+            seg = between(can.stderr + can.stdout) if tool == "ltrace" else between(can.stderr)
+            detected = bool(seg) and ("rand" in seg) if tool == "ltrace" else bool(seg)
+            cov[tool + "_canary_detected"] = detected
+            if not detected:
+                cov[tool + "_note"] = "tracer unavailable or canary not seen; this monitor contributed nothing"
+                continue
+            r = run([], pre=pre)
+            seg = between(r.stderr + r.stdout) if tool == "ltrace" else between(r.stderr)
+            if seg is None:
+                cov[tool + "_note"] = "markers not found in trace"
+                continue
+            calls = []
+            for line in seg.split("\n")[1:]:
+                m = re.match(r"(?:\[pid\s+\d+\]\s+)?(?:[\w.+-]+->)?([a-z_0-9]+)\(", line.strip())
+                if m and m.group(1) != "write":
+                    calls.append(m.group(1))
+            cov[tool + "_calls_in_region"] = len(calls)
+            cov[tool + "_trace_lines_in_region"] = len(seg.split("\n"))
+            for c in sorted(set(calls)):
+                viols.append(dict(key="purity/%s/%s" % (tool, c), details=dict(trace=seg[:1500])))
+        except Exception as ex:  # noqa
+            cov[tool + "_note"] = "not run: %s" % str(ex)[:200]
+    return cov, viols
+
+
+prop("C19", "exploration",
+     "all 2^31-2 generator states in 256 chunks (plain build; the ASan+UBSan build takes every 2048th state and both ends of every chunk): "
+     "next_long_rand against 16807*s mod (2^31-1) in 64-bit arithmetic, draws for float/double/long double and their complex forms in [-0.5,0.5] "
+     "and equal to state/(2^31-1)-0.5 within 4 ulp; the orbit from 1; every seed 2i+123j (i<2^20, j<5; subsampled under ASan) with its first 64 draws; "
+     "16-thread and cross-process digests; ltrace/strace purity monitor. A case is one chunk; non-trivial = chunk with at least one state; distinct by chunk id",
+     [dict(name="c19_rng", sources=["c19_rng.cpp"], flavour="plain"),
+      dict(name="c19_rng_asan", sources=["c19_rng.cpp"], flavour="asan", flags=["-DC19_SUBSAMPLE"])],
+     assumptions=TRUST + ["'across platforms' is observed as independence from process, thread, ASLR layout, heap history and libc RNG/clock state on this machine only"],
+     exhaustive=True, extras=[dict(name="c19_purity_monitor", fn=c19_purity)])
